@@ -15,6 +15,7 @@ import IocProofs.Lemmas.SemMisc
 import IocProofs.Lemmas.SemDiscover
 import IocProofs.Lemmas.SemOptions
 import IocProofs.Lemmas.SemDefReg
+import IocProofs.Lemmas.SemPrepare
 namespace Ioc.C06
 open Ioc Ioc.Tag Ioc.Match
 
@@ -447,5 +448,20 @@ theorem C06_registry_upsert_lookup (k k' : String) (v : Nat) (l : List (String Ã
         Â· rfl
 
 end registry
+
+/-! ### defaultFactory.GetComponents, REGENERATED (interpretation Ioc.SemPrepare) -/
+section getcomponents
+open Ioc.Go Ioc.Sem
+
+/-- GetComponents: the definitions the options select are fetched BY NAME through the factory, in the order GetMetas returns
+    them, and listed in that order; the first failing fetch ends the call with its error and no list -/
+theorem C06_code_GetComponents (p : GCP) (opts : Go.Val) (w : List String) :
+    run (gcPrims p) Progs.factory_GetComponents [opts] w =
+      some (match (gcRun p p.metas).2.2 with
+            | none => .tuple [refsNil (gcRun p p.metas).1, .nil]
+            | some e => .tuple [.nil, .str e], w ++ (gcRun p p.metas).2.1) :=
+  getComponents_sem p opts w
+
+end getcomponents
 
 end Ioc.C06
